@@ -11,6 +11,10 @@
 //!   M|desc|streamhex                -> OUTCOME            (malformed / mutated stream)
 //!   I|mode|item;item;..|junkhex     -> hex|IOUTCOME       (interned handles; mode fresh|warm)
 //!   J|mode|itemty;..|pre;..|streamhex -> IOUTCOME         (mutated interned stream)
+//!   N|mode|env|type|value|junkhex|extra -> hex|OUTCOME    (nested interned handles: handles inside handle payloads;
+//!                                                          a handle prints its hash in the op, its allocation class in the outcome)
+//!   O|mode|env|type|value|streamhex -> OUTCOME            (mutated nested stream)
+//!   Q|env|type|value                -> hex                (nested, colliding hashes: encoder only)
 //! OUTCOME = ok|rendering|consumed  or  eof / invalid / panic.
 #![allow(clippy::all, dead_code, unused_imports, unused_macros)]
 use std::any::type_name;
@@ -1222,6 +1226,247 @@ fn interned_case<S: Shape>(out: &mut Out, st: &mut Stats, rng: &mut Rng) {
     drop(v);
 }
 
+// ------------------------------------------------------------------------------------------------
+// nested interned handles: handles inside the payloads of handles (trees / DAGs with sharing)
+// ------------------------------------------------------------------------------------------------
+// type ids of the model (`env` of Model/CodecNested): 0 NNode, 1 NExpr, 2 str, 3 String, 4 [Interned<NNode>]
+const NENV: &str = "0=T(Pu16,S(H0),O(H2),Pstr);1=E(T(),T(H0),T(H1,Pu16),T(H1,H1),T(H3),T(H4));2=Pstr;3=Pstr;4=S(H0)";
+const NEXPR_TY: &str = "E(T(),T(H0),T(H1,Pu16),T(H1,H1),T(H3),T(H4))";
+#[derive(Encode, Decode, Debug, Clone, PartialEq, Eq)]
+#[serialize_crate(qbice_serialize)]
+pub struct NNode { label: u16, kids: Vec<Interned<NNode>>, name: Option<Interned<str>>, note: String }
+#[derive(Encode, Decode, Debug, Clone, PartialEq, Eq)]
+#[serialize_crate(qbice_serialize)]
+pub enum NExpr { Nil, Ref(Interned<NNode>), Cons(Interned<NExpr>, u16), Pair(Interned<NExpr>, Interned<NExpr>), Name(Interned<String>), Many(Interned<[Interned<NNode>]>) }
+impl StableHash for NNode { fn stable_hash<S: StableHasher + ?Sized>(&self, st: &mut S) { self.label.stable_hash(st); self.kids.stable_hash(st); self.name.stable_hash(st); self.note.stable_hash(st); } }
+impl StableHash for NExpr {
+    fn stable_hash<S: StableHasher + ?Sized>(&self, st: &mut S) {
+        match self { NExpr::Nil => 0u8.stable_hash(st), NExpr::Ref(n) => { 1u8.stable_hash(st); n.stable_hash(st) } NExpr::Cons(e, k) => { 2u8.stable_hash(st); e.stable_hash(st); k.stable_hash(st) }
+            NExpr::Pair(a, b) => { 3u8.stable_hash(st); a.stable_hash(st); b.stable_hash(st) } NExpr::Name(s) => { 4u8.stable_hash(st); s.stable_hash(st) } NExpr::Many(s) => { 5u8.stable_hash(st); s.stable_hash(st) } }
+    }
+}
+impl qbice_stable_type_id::Identifiable for NNode { const STABLE_TYPE_ID: qbice_stable_type_id::StableTypeID = qbice_stable_type_id::StableTypeID::from_unique_type_name("qbice_verif::codec::NNode"); }
+impl qbice_stable_type_id::Identifiable for NExpr { const STABLE_TYPE_ID: qbice_stable_type_id::StableTypeID = qbice_stable_type_id::StableTypeID::from_unique_type_name("qbice_verif::codec::NExpr"); }
+
+/// one traversal: renders the value (handles print their hash, or — `classes` — the pre-order index of the first
+/// occurrence of their allocation) and lists every handle occurrence in pre-order: (type id, pointer, hash rendering)
+pub struct NCx<'a> { it: &'a Interner, classes: bool, occ: Vec<(u32, usize, String)> }
+pub trait NShape { fn nty() -> String; fn nrender(&self, cx: &mut NCx) -> String; }
+pub trait NPay { const TID: u32; fn pay_render(&self, cx: &mut NCx) -> String; }
+impl<T: NPay + StableHash + ?Sized> NShape for Interned<T> {
+    fn nty() -> String { format!("H{}", T::TID) }
+    fn nrender(&self, cx: &mut NCx) -> String {
+        let ptr = (&**self) as *const T as *const u8 as usize;
+        let i = cx.occ.len();
+        cx.occ.push((T::TID, ptr, String::new()));
+        let pay = self.pay_render(cx);
+        let hashed = format!("h{}{{{}}}", cx.it.hash_128(&**self).to_u128(), pay);
+        if cx.classes {
+            let cls = cx.occ.iter().position(|o| o.0 == T::TID && o.1 == ptr).unwrap_or(i);
+            format!("h{}{{{}}}", cls, pay)
+        } else { cx.occ[i].2 = hashed.clone(); hashed }
+    }
+}
+macro_rules! nplain { ($($t:ty),*) => { $(impl NShape for $t { fn nty() -> String { format!("P{}", <$t as Describe>::desc()) } fn nrender(&self, _: &mut NCx) -> String { Describe::render(self) } })* } }
+nplain!(u16, u32, String);
+impl<T: NShape> NShape for Vec<T> { fn nty() -> String { format!("S({})", T::nty()) } fn nrender(&self, cx: &mut NCx) -> String { list(self.iter().map(|x| x.nrender(cx)).collect()) } }
+impl<T: NShape> NShape for Option<T> { fn nty() -> String { format!("O({})", T::nty()) } fn nrender(&self, cx: &mut NCx) -> String { match self { None => "#0([])".into(), Some(v) => format!("#1({})", v.nrender(cx)) } } }
+impl<A: NShape, B: NShape, C: NShape, D: NShape> NShape for (A, B, C, D) {
+    fn nty() -> String { format!("T({},{},{},{})", A::nty(), B::nty(), C::nty(), D::nty()) }
+    fn nrender(&self, cx: &mut NCx) -> String { let a = self.0.nrender(cx); let b = self.1.nrender(cx); let c = self.2.nrender(cx); let d = self.3.nrender(cx); list(vec![a, b, c, d]) }
+}
+impl NPay for NNode { const TID: u32 = 0; fn pay_render(&self, cx: &mut NCx) -> String { let k = self.kids.nrender(cx); let n = self.name.nrender(cx); list(vec![Describe::render(&self.label), k, n, Describe::render(&self.note)]) } }
+impl NPay for NExpr { const TID: u32 = 1; fn pay_render(&self, cx: &mut NCx) -> String { self.nrender(cx) } }
+impl NPay for str { const TID: u32 = 2; fn pay_render(&self, _: &mut NCx) -> String { shex(self.as_bytes()) } }
+impl NPay for String { const TID: u32 = 3; fn pay_render(&self, _: &mut NCx) -> String { shex(self.as_bytes()) } }
+impl NPay for [Interned<NNode>] { const TID: u32 = 4; fn pay_render(&self, cx: &mut NCx) -> String { list(self.iter().map(|x| x.nrender(cx)).collect()) } }
+impl NShape for NExpr {
+    fn nty() -> String { NEXPR_TY.into() }
+    fn nrender(&self, cx: &mut NCx) -> String {
+        match self { NExpr::Nil => "#0([])".into(), NExpr::Ref(n) => format!("#1([{}])", n.nrender(cx)), NExpr::Cons(e, k) => { let a = e.nrender(cx); format!("#2([{},{}])", a, k) }
+            NExpr::Pair(a, b) => { let x = a.nrender(cx); let y = b.nrender(cx); format!("#3([{},{}])", x, y) } NExpr::Name(s) => format!("#4([{}])", s.nrender(cx)), NExpr::Many(s) => format!("#5([{}])", s.nrender(cx)) }
+    }
+}
+/// values built bottom-up; children are picked among the earlier ones, so sharing, repetition and depth abound.
+/// The second component is the size of the value as a tree (what the textual rendering costs).
+pub struct NPool { strs: Vec<Interned<str>>, strings: Vec<Interned<String>>, nodes: Vec<(Interned<NNode>, usize)>, exprs: Vec<(Interned<NExpr>, usize)>, slices: Vec<(Interned<[Interned<NNode>]>, usize)>, depth: usize }
+const NCAP: usize = 120;
+impl NPool {
+    fn build(rng: &mut Rng, mk: &Mk) -> NPool {
+        let words = ["", "a", "b", "ab"];
+        let mut p = NPool { strs: vec![], strings: vec![], nodes: vec![], exprs: vec![], slices: vec![], depth: 0 };
+        for _ in 0..rng.range(1, 3) { p.strs.push(mk.str((*rng.pick(&words)).to_string())); }
+        for _ in 0..rng.range(1, 3) { p.strings.push(mk.sized((*rng.pick(&words)).to_string())); }
+        let mut depth_of: Vec<usize> = vec![];
+        for _ in 0..rng.range(1, 7) {
+            let mut kids = vec![]; let mut size = 1usize; let mut d = 1usize;
+            for _ in 0..rng.below(4) { if p.nodes.is_empty() { break; } let i = if rng.chance(1, 2) { p.nodes.len() - 1 } else { rng.below(p.nodes.len() as u64) as usize }; let (k, s) = &p.nodes[i]; if size + s <= NCAP { kids.push(k.clone()); size += s; d = d.max(depth_of[i] + 1); } }
+            let name = if rng.chance(1, 2) { size += 1; Some(rng.pick(&p.strs).clone()) } else { None };
+            let n = NNode { label: rng.below(3) as u16, kids, name, note: (*rng.pick(&["", "n"])).to_string() };
+            p.nodes.push((mk.sized(n), size)); depth_of.push(d); p.depth = p.depth.max(d);
+        }
+        for _ in 0..rng.below(3) {
+            let mut v = vec![]; let mut size = 1usize;
+            for _ in 0..rng.below(4) { let (k, s) = rng.pick(&p.nodes); if size + s <= NCAP { v.push(k.clone()); size += s; } }
+            let h = match mk.it { Some(i) => i.intern_unsized(v.into_boxed_slice()), None => Interned::new_duplicating_unsized(v.into_boxed_slice()) };
+            p.slices.push((h, size));
+        }
+        for _ in 0..rng.below(6) {
+            let (e, size) = match rng.below(6) {
+                1 => { let (n, s) = rng.pick(&p.nodes); (NExpr::Ref(n.clone()), 1 + s) }
+                2 if !p.exprs.is_empty() => { let (e, s) = rng.pick(&p.exprs); (NExpr::Cons(e.clone(), *rng.pick(&[0u16, 300])), 1 + s) }
+                3 if !p.exprs.is_empty() => { let (a, s) = rng.pick(&p.exprs).clone(); let (b, t) = rng.pick(&p.exprs).clone(); if s + t < NCAP { (NExpr::Pair(a, b), 1 + s + t) } else { (NExpr::Nil, 1) } }
+                4 => (NExpr::Name(rng.pick(&p.strings).clone()), 2),
+                5 if !p.slices.is_empty() => { let (s, z) = rng.pick(&p.slices); (NExpr::Many(s.clone()), 1 + z) }
+                _ => (NExpr::Nil, 1),
+            };
+            p.exprs.push((mk.sized(e), size));
+        }
+        if p.exprs.is_empty() { p.exprs.push((mk.sized(NExpr::Nil), 1)); }
+        if p.slices.is_empty() { p.slices.push((match mk.it { Some(i) => i.intern_unsized(Vec::new().into_boxed_slice()), None => Interned::new_duplicating_unsized(Vec::new().into_boxed_slice()) }, 1)); }
+        p
+    }
+    fn node(&self, rng: &mut Rng) -> Interned<NNode> { if rng.chance(1, 2) { self.nodes.last().unwrap().0.clone() } else { rng.pick(&self.nodes).0.clone() } }
+}
+pub trait NTop: NShape + Encode + Decode + PartialEq + Sized { fn from_pool(p: &NPool, rng: &mut Rng) -> Self; }
+type N1 = Vec<Interned<NNode>>;
+type N2 = (Interned<NNode>, Interned<NExpr>, Option<Interned<NNode>>, Vec<Interned<str>>);
+type N3 = Vec<NExpr>;
+type N4 = (Interned<[Interned<NNode>]>, Interned<NNode>, u32, Interned<String>);
+impl NTop for N1 { fn from_pool(p: &NPool, rng: &mut Rng) -> Self { (0..rng.below(5)).map(|_| p.node(rng)).collect() } }
+impl NTop for N2 { fn from_pool(p: &NPool, rng: &mut Rng) -> Self { (p.node(rng), rng.pick(&p.exprs).0.clone(), if rng.chance(2, 3) { Some(p.node(rng)) } else { None }, (0..rng.below(3)).map(|_| rng.pick(&p.strs).clone()).collect()) } }
+impl NTop for N3 { fn from_pool(p: &NPool, rng: &mut Rng) -> Self { (0..rng.below(5)).map(|_| { let e: &NExpr = &rng.pick(&p.exprs).0; e.clone() }).collect() } }
+impl NTop for N4 { fn from_pool(p: &NPool, rng: &mut Rng) -> Self { (rng.pick(&p.slices).0.clone(), p.node(rng), rng.next() as u32, rng.pick(&p.strings).clone()) } }
+
+/// Finding F61 (kept as a regression input, run first in shard 0 of every run): the decoder-side interner holds a live
+/// value `e` whose inner handle is an `Interned::new_duplicating` copy (public API; "doesn't guarantee deduplication").
+/// Decoding `encode((e, intern(leaf)))` after the tuple was dropped: the decoder interns the inner value it reads (a
+/// fresh allocation, nothing equal is registered), `intern(outer)` returns the live `e` and drops the decoded payload —
+/// the only owner of that allocation —, and the reference to the inner value that follows misses: `expect` panics.
+/// This is the boundary of hypothesis `IOk` of `interned_roundtrip_nested` (every live entry is canonical).
+fn nested_boundary_probe(st: &mut Stats) {
+    let it = Interner::new(4, MaskedBuilder { seed: 7, mask: u128::MAX });
+    let mut plugin = Plugin::new(); plugin.insert(it.clone());
+    let leaf = NNode { label: 1, kids: vec![], name: None, note: String::new() };
+    let e = it.intern(NNode { label: 2, kids: vec![Interned::new_duplicating(leaf.clone())], name: None, note: String::new() });
+    let v: (Interned<NNode>, Interned<NNode>) = (e.clone(), it.intern(leaf));
+    let bytes = encode_real(&v, &plugin);
+    drop(v);
+    let mut dec = Guard::new(&bytes[..], LIMIT);
+    let r = decode_real::<(Interned<NNode>, Interned<NNode>)>(&mut dec, &plugin);
+    let ok = matches!(&r, Ok(d) if d.0 == e && d.1.label == 1 && dec.remaining() == 0);
+    Stats::bump(&mut st.classes, &format!("nested-F61-live-value-with-new_duplicating-inner-handle-decode-{}", match &r { Ok(_) => "ok".to_string(), Err(o) => o.show() }));
+    if !ok {
+        st.fail("nested:live-newdup-inner".into(),
+            format!("decode(encode v) {} for v = (e, it.intern(leaf)), e = it.intern(NNode{{label:2, kids:[Interned::new_duplicating(leaf)]}}) alive in the shared interner, v dropped before decoding; bytes {}",
+                match &r { Ok(_) => "differs".to_string(), Err(o) => o.show() }, hex(&bytes)),
+            "codec --stages nested --shard 0 K (deterministic probe nested_boundary_probe)".into());
+    }
+    drop(e);
+}
+
+fn nested_case<S: NTop>(out: &mut Out, st: &mut Stats, rng: &mut Rng) {
+    let warm = rng.chance(1, 3);
+    let mask: u128 = if !warm && rng.chance(1, 6) { 0x3 } else { u128::MAX };
+    let hb = MaskedBuilder { seed: rng.next(), mask };
+    let enc_it = Interner::new(4, hb);
+    let mut enc_plugin = Plugin::new(); enc_plugin.insert(enc_it.clone());
+    let dec_it = if warm { enc_it.clone() } else { Interner::new(4, hb) };
+    let mut dec_plugin = Plugin::new(); dec_plugin.insert(dec_it.clone());
+    let mk = Mk { it: if warm { Some(&enc_it) } else { None } };
+    let pool = NPool::build(rng, &mk);
+    let v = S::from_pool(&pool, rng);
+    let depth = pool.depth;
+    if rng.chance(1, 2) { drop(pool); }   // the value alone keeps its parts alive / other equal values are alive too
+    let mut cx = NCx { it: &enc_it, classes: false, occ: vec![] };
+    let val = v.nrender(&mut cx);
+    let occ = cx.occ;
+    let (bytes, recs) = trace_real(&v, &enc_plugin);
+    let mode = if warm { "warm" } else { "fresh" };
+    let ty = S::nty();
+    // hypothesis of `interned_roundtrip_nested`: equal (type id, hash) only for equal payloads (the hash is part of the rendering)
+    let hash_of = |r: &String| r[1..r.find('{').unwrap()].to_string();
+    let hyp = occ.iter().all(|a| occ.iter().all(|b| !(a.0 == b.0 && hash_of(&a.2) == hash_of(&b.2)) || a.2 == b.2));
+    if !hyp { st.hyp_violated += 1; }
+    let repeated = occ.iter().enumerate().any(|(i, a)| occ[..i].iter().any(|b| a.0 == b.0 && a.2 == b.2));
+    Stats::bump(&mut st.classes, &format!("nested-depth-{}", depth.min(6)));
+    Stats::bump(&mut st.classes, if repeated { "nested-with-sharing" } else { "nested-no-sharing" });
+    Stats::bump(&mut st.classes, &format!("nested-occurrences-{}", match occ.len() { 0 => "0", 1..=3 => "1-3", 4..=15 => "4-15", 16..=63 => "16-63", _ => "64+" }));
+    let mutated = mask == u128::MAX && rng.chance(1, 5);
+    if !hyp {
+        // colliding hashes: the encoder is still followed byte for byte (seen-set order: a descendant colliding with an
+        // ancestor is written as a reference); the decoder is not (the hashes of the conflated payloads it builds and
+        // drops on the way are unknown to the model) — the flat `I` ops compare both sides under collisions
+        st.line(out, "nested", &format!("Q|{}|{}|{}", NENV, ty, val), &hex(&bytes), true);
+        Stats::bump(&mut st.classes, "nested-colliding-encode-only");
+        let mut dec = Guard::new(&bytes[..], LIMIT);
+        let r = decode_real::<S>(&mut dec, &dec_plugin);
+        Stats::bump(&mut st.classes, &format!("nested-colliding-decode-{}", match &r { Ok(_) => "ok".to_string(), Err(o) => o.show() }));
+        return;
+    }
+    {
+        // oracle, encoder side ("equal sub-values are encoded once"): the handle tags are the only `emit_u8` calls of these
+        // types; the number of handles written in full is the number of distinct (type id, payload) in the value
+        let full = recs.iter().filter(|r| r.kind == Kind::U8 && bytes[r.off] == 0).count();
+        let distinct: HashSet<(u32, &String)> = occ.iter().map(|o| (o.0, &o.2)).collect();
+        if full != distinct.len() {
+            st.fail("nested:encoded-once".into(), format!("{} handles written in full, {} distinct interned values: type {ty} value {val} bytes {}", full, distinct.len(), hex(&bytes)), format!("N|{}|{}|{}|{}|-|-", mode, NENV, ty, val));
+        }
+    }
+    if !mutated {
+        let j = junk(rng);
+        let mut stream = bytes.clone(); stream.extend_from_slice(&j);
+        let mut dec = Guard::new(&stream[..], vlimit());
+        let r = decode_real::<S>(&mut dec, &dec_plugin);
+        if dec.tripped { st.guard_skipped += 1; return; }
+        let consumed = stream.len() - dec.remaining();
+        let mut extra = "-".to_string();
+        let (imp_o, bad): (String, Option<(&str, String)>) = match &r {
+            Ok(d) => {
+                let mut c2 = NCx { it: &dec_it, classes: true, occ: vec![] };
+                let shown = d.nrender(&mut c2);
+                let docc = c2.occ;
+                if mask != u128::MAX { let mut c3 = NCx { it: &dec_it, classes: false, occ: vec![] }; extra = d.nrender(&mut c3); }
+                let same_shape = docc.len() == occ.len() && docc.iter().zip(occ.iter()).all(|(a, b)| a.0 == b.0);
+                let bad = if *d != v || !same_shape { Some(("nested:roundtrip", "decoded value differs from the original".to_string())) }
+                    else if consumed != bytes.len() { Some(("nested:consumed", format!("consumed {consumed} of {} bytes", bytes.len()))) }
+                    else if let Some((i, k)) = (0..occ.len()).flat_map(|i| (0..occ.len()).map(move |k| (i, k))).find(|(i, k)| occ[*i].0 == occ[*k].0 && (docc[*i].1 == docc[*k].1) != (occ[*i].2 == occ[*k].2)) {
+                        Some(("nested:sharing", format!("handle occurrences {i} and {k} (pre-order) of type {}: equal values {} but same allocation {}", occ[i].0, occ[i].2 == occ[k].2, docc[i].1 == docc[k].1))) }
+                    else if let Some(i) = (0..occ.len()).find(|i| occ[*i].0 != occ[0].0 && docc[*i].1 == docc[0].1 && occ[0].0 < 2 && occ[*i].0 < 2) { Some(("nested:types-share", format!("occurrence {i} shares an allocation with a handle of another type"))) }
+                    else if warm && docc.iter().zip(occ.iter()).any(|(a, b)| a.1 != b.1) { Some(("nested:not-canonical", "decoding through the encoder's interner did not return the live originals".to_string())) }
+                    else {
+                        // decoding the same bytes again while the first result is alive: the same allocations
+                        let mut dec2 = Guard::new(&stream[..], vlimit());
+                        match decode_real::<S>(&mut dec2, &dec_plugin) {
+                            Ok(d2) => { let mut c4 = NCx { it: &dec_it, classes: true, occ: vec![] }; let _ = d2.nrender(&mut c4);
+                                if d2 != *d || c4.occ.iter().zip(docc.iter()).any(|(a, b)| a.1 != b.1) { Some(("nested:second-decode", "a second decode through the same interner did not return the first one's allocations".to_string())) } else { None } }
+                            Err(o) => Some(("nested:second-decode", format!("a second decode through the same interner failed: {}", o.show()))),
+                        }
+                    };
+                (format!("ok|{}|{}", shown, consumed), bad)
+            }
+            Err(o) => (o.show(), Some(("nested:roundtrip", format!("decoding a valid encoding failed: {}", o.show())))),
+        };
+        let op = format!("N|{}|{}|{}|{}|{}|{}", mode, NENV, ty, val, hex(&j), extra);
+        st.line(out, "nested", &op, &format!("{}|{}", hex(&bytes), imp_o), true);
+        if hyp { if let Some((sig, desc)) = bad { st.fail(sig.into(), format!("{desc}: type {ty} value {val} bytes {} -> {imp_o}", hex(&bytes)), op); } }
+    } else {
+        // mutated stream: truncation, an invalid handle tag, or a first occurrence turned into a reference (its payload is
+        // then read as a hash: the lookup misses and the decoder panics)
+        let tags: Vec<&Rec> = recs.iter().filter(|r| r.kind == Kind::U8).collect();
+        let stream = if tags.is_empty() || rng.chance(1, 2) { if bytes.is_empty() { bytes.clone() } else { bytes[..rng.below(bytes.len() as u64) as usize].to_vec() } }
+                     else { let r = *rng.pick(&tags); let nb = if bytes[r.off] == 0 && rng.chance(2, 3) { 1u8 } else { *rng.pick(&[2u8, 3, 0xff]) }; splice(&bytes, r, &[nb]) };
+        let mut dec = Guard::new(&stream[..], LIMIT);
+        let r = decode_real::<S>(&mut dec, &dec_plugin);
+        if dec.tripped { st.guard_skipped += 1; return; }
+        let consumed = stream.len() - dec.remaining();
+        let imp_o = match &r { Ok(d) => { let mut c2 = NCx { it: &dec_it, classes: true, occ: vec![] }; format!("ok|{}|{}", d.nrender(&mut c2), consumed) } Err(o) => o.show() };
+        Stats::bump(&mut st.classes, &format!("nested-mutated-{}", imp_o.split('|').next().unwrap()));
+        st.line(out, "nested", &format!("O|{}|{}|{}|{}|{}", mode, NENV, ty, val, hex(&stream)), &imp_o, true);
+    }
+    drop(v);
+}
+
 /// rebuild a BitVec from its descriptor `bv(W,O)` and rendering `b<len>:<w>.<w>…`
 fn corpus_bitvec(desc: &str, val: &str) -> Option<Box<dyn Erased>> {
     let v = val.strip_prefix('b')?;
@@ -1249,7 +1494,7 @@ fn main() {
     let a = args();
     if std::env::var("C12_PANIC_MSG").is_err() { std::panic::set_hook(Box::new(|_| {})); }
     let mut shard = (0u64, 1u64);
-    let mut stages: Vec<String> = vec!["exh16", "edges", "random", "pairs", "malformed", "interned"].into_iter().map(String::from).collect();
+    let mut stages: Vec<String> = vec!["exh16", "edges", "random", "pairs", "malformed", "interned", "nested"].into_iter().map(String::from).collect();
     let mut i = 0;
     while i < a.rest.len() {
         match a.rest[i].as_str() {
@@ -1316,6 +1561,14 @@ fn main() {
         for _ in 0..(n / 16).max(8) {
             interned_case::<S1>(&mut out, &mut st, &mut rng); interned_case::<S2>(&mut out, &mut st, &mut rng);
             interned_case::<S3>(&mut out, &mut st, &mut rng); interned_case::<S4>(&mut out, &mut st, &mut rng);
+        }
+    }
+
+    if stages.iter().any(|s| s == "nested") {
+        if shard.0 == 0 { nested_boundary_probe(&mut st); }
+        for _ in 0..(n / 32).max(8).min(4000) {   // (the op lines are long: bounded for the disk)
+            nested_case::<N1>(&mut out, &mut st, &mut rng); nested_case::<N2>(&mut out, &mut st, &mut rng);
+            nested_case::<N3>(&mut out, &mut st, &mut rng); nested_case::<N4>(&mut out, &mut st, &mut rng);
         }
     }
 
